@@ -10,7 +10,7 @@
    level t0 (cons_loop_as_incl), the old root being the same fold restricted to the left siblings
    (old_eval). The two folds to the old root are matched from the top with nodeh_inj only, and the
    new path is assembled from the terms of both proofs (transport_inner / transport_outer). *)
-From V Require Import Proofs.History Proofs.Unique Merkle.Sound Merkle.VerifyFixed.
+From V Require Import Proofs.History Proofs.Linear Proofs.Unique Proofs.ConsLen Merkle.Sound Merkle.VerifyFixed Merkle.AHTArith.
 From Coq Require Import ZifyN ZifyNat ZifyBool.
 Open Scope N_scope.
 
@@ -172,6 +172,212 @@ Proof.
         destruct (IH (N.div2 z) (N.div2 w) r t (nodeh g c1) (nodeh h c2)) as [E1|C]; auto; try lia.
         { apply div2_lt_pow; auto. } { rewrite !nodeh_len. reflexivity. }
         destruct (nodeh_inj H g c1 h c2 ltac:(congruence) E1) as [[_ ->]|C]; auto.
+Qed.
+
+(* one level of the consistency fold (old value ci, new value cj at index y of y'+1 nodes) *)
+Lemma b_step (y y' : N) (r : list bytes) (ci cj : bytes) :
+  y <= y' -> y <> 0 -> lenN r = ilenN y y' -> len32 r -> length ci = 32%nat -> length cj = 32%nat ->
+  exists r2 ci2 cj2,
+    lenN r2 = ilenN (N.div2 y) (N.div2 y') /\ len32 r2 /\ length ci2 = 32%nat /\ length cj2 = 32%nat /\
+    old_eval r y y' ci = old_eval r2 (N.div2 y) (N.div2 y') ci2 /\
+    eval_inclusion H r y y' cj = eval_inclusion H r2 (N.div2 y) (N.div2 y') cj2.
+Proof.
+  intros Hy Hy0 Lr Fr Lci Lcj.
+  destruct (N.eq_dec y y') as [<-|Ne].
+  - rewrite ilenN_eq in Lr. destruct (N.odd y) eqn:O.
+    + destruct r as [|h r]; [unfold lenN in Lr; cbn [length] in Lr; lia|].
+      rewrite lenN_cons1 in Lr. inversion Fr as [|? ? Lh Fr']; subst.
+      exists r, (nodeh h ci), (nodeh h cj). rewrite !nodeh_len.
+      repeat split; auto; try lia.
+      * cbn [old_eval]. rewrite N.eqb_refl. cbn [negb]. rewrite andb_false_r. reflexivity.
+      * cbn [eval_inclusion]. rewrite N.eqb_refl. cbn [negb]. rewrite andb_false_r. reflexivity.
+    + exists r, ci, cj. repeat split; auto; try lia.
+      * rewrite !old_eval_same. reflexivity.
+      * rewrite !eval_incl_same. reflexivity.
+  - rewrite ilenN_lt in Lr by lia.
+    destruct r as [|h r]; [unfold lenN in Lr; cbn [length] in Lr; lia|].
+    rewrite lenN_cons1 in Lr. inversion Fr as [|? ? Lh Fr']; subst.
+    exists r, (if N.even y then ci else nodeh h ci), (if N.even y then nodeh cj h else nodeh h cj).
+    repeat split; auto; try lia.
+    + destruct (N.even y); auto. apply nodeh_len.
+    + destruct (N.even y); apply nodeh_len.
+    + cbn [old_eval]. destruct (N.eqb_spec y y'); [contradiction|]. cbn [negb]. rewrite andb_true_r. reflexivity.
+    + cbn [eval_inclusion]. destruct (N.eqb_spec y y'); [contradiction|]. cbn [negb]. rewrite andb_true_r. reflexivity.
+Qed.
+
+(* the inner phase: x < y <= y' at one level, old value ci and new value cj at index y *)
+Lemma transport_inner : forall (f : nat) (x y y' : N) (leaf ci cj : bytes) (t r : list bytes),
+  y' < 2 ^ N.of_nat f -> x < y -> y <= y' ->
+  lenN t = ilenN x y -> lenN r = ilenN y y' ->
+  len32 t -> len32 r -> length leaf = 32%nat -> length ci = 32%nat -> length cj = 32%nat ->
+  eval_inclusion H t x y leaf = old_eval r y y' ci ->
+  (exists t', len32 t' /\ lenN t' = ilenN x y' /\
+              eval_inclusion H t' x y' leaf = eval_inclusion H r y y' cj) \/ Collision.
+Proof.
+  induction f as [|f IH]; intros x y y' leaf ci cj t r Hf Hxy Hyy Lt Lr Ft Fr Ll Lci Lcj E.
+  - simpl in Hf. lia.
+  - rewrite ilenN_lt in Lt by lia.
+    destruct t as [|hA tA]; [unfold lenN in Lt; cbn [length] in Lt; lia|].
+    rewrite lenN_cons1 in Lt. inversion Ft as [|? ? LhA FtA]; subst.
+    cbn [eval_inclusion] in E. destruct (N.eqb_spec x y) as [|_]; [lia|]. cbn [negb] in E. rewrite andb_true_r in E.
+    set (leafA := if N.even x then nodeh leaf hA else nodeh hA leaf) in *.
+    assert (LlA : length leafA = 32%nat) by (unfold leafA; destruct (N.even x); apply nodeh_len).
+    assert (Hf' : N.div2 y' < 2 ^ N.of_nat f) by (apply div2_lt_pow; auto).
+    assert (Dxy : N.div2 x <= N.div2 y) by (rewrite !N.div2_div; lia).
+    assert (Dyy : N.div2 y <= N.div2 y') by (rewrite !N.div2_div; lia).
+    destruct (N.eq_dec (N.div2 x) (N.div2 y)) as [Ez|Nz].
+    + (* merge: x even, y = x + 1: the sibling of the leaf side is the OLD node ci; replace it by cj *)
+      assert (Ex : N.even x = true /\ y = x + 1).
+      { rewrite !N.div2_div in Ez. destruct (N.even x) eqn:Ev.
+        - apply N.even_spec in Ev as [k ->]. split; auto. lia.
+        - assert (N.odd x = true) as Od by (rewrite <- N.negb_even, Ev; reflexivity).
+          apply N.odd_spec in Od as [k ->]. lia. }
+      destruct Ex as [Ev Ey].
+      assert (Oy : N.odd y = true) by (rewrite Ey, N.add_1_r, N.odd_succ; exact Ev).
+      assert (Lr' : lenN r = 1 + ilenN (N.div2 y) (N.div2 y')).
+      { destruct (N.eq_dec y y') as [<-|]; [rewrite ilenN_eq, Oy in Lr; exact Lr | rewrite ilenN_lt in Lr by lia; exact Lr]. }
+      destruct r as [|hB rB]; [unfold lenN in Lr'; cbn [length] in Lr'; lia|].
+      rewrite lenN_cons1 in Lr'.
+      pose proof (Forall_inv Fr) as LhB. pose proof (Forall_inv_tail Fr) as FrB. cbn beta in LhB.
+      cbn [old_eval] in E. rewrite <- N.negb_odd, Oy in E. cbn [negb andb] in E.
+      rewrite Ez, eval_incl_same in E.
+      assert (LrB : lenN rB = ilenN (N.div2 y) (N.div2 y')) by lia.
+      assert (LtA : lenN tA = ilenN (N.div2 y) (N.div2 y)) by (rewrite Ez in Lt; lia).
+      destruct (old_vs_last f (N.div2 y) (N.div2 y') rB tA leafA (nodeh hB ci) Hf' Dyy LrB LtA FrB FtA
+                  ltac:(rewrite LlA, nodeh_len; reflexivity) E) as [E1|C]; auto.
+      unfold leafA in E1. rewrite Ev in E1.
+      destruct (nodeh_inj H leaf hA hB ci ltac:(congruence) E1) as [[El Eh]|C]; auto.
+      left. exists (cj :: rB).
+      split; [constructor; auto|]. split.
+      * rewrite lenN_cons1, ilenN_lt by lia. rewrite Ez. lia.
+      * cbn [eval_inclusion]. rewrite Ev. destruct (N.eqb_spec x y'); [lia|]. cbn [negb andb].
+        rewrite <- (N.negb_odd y), Oy. cbn [negb andb].
+        rewrite Ez, El. reflexivity.
+    + destruct (b_step y y' r ci cj Hyy ltac:(lia) Lr Fr Lci Lcj)
+        as (r2 & ci2 & cj2 & Lr2 & Fr2 & Lci2 & Lcj2 & Eo & En).
+      rewrite Eo in E.
+      destruct (IH (N.div2 x) (N.div2 y) (N.div2 y') leafA ci2 cj2 tA r2) as [(t2 & Ft2 & Lt2 & Et2)|C]; auto; try lia.
+      left. exists (hA :: t2). split; [constructor; auto|]. split.
+      * rewrite lenN_cons1, ilenN_lt by lia. lia.
+      * cbn [eval_inclusion]. destruct (N.eqb_spec x y'); [lia|]. cbn [negb]. rewrite andb_true_r.
+        fold leafA. rewrite Et2, En. reflexivity.
+Qed.
+
+(* the outer phase: below the level of the first consistency term (trailing ones of y) both paths
+   climb together; at that level either the leaf side IS c0 or the inner phase starts *)
+Lemma transport_outer : forall (sf f : nat) (x y y' : N) (leaf c0 : bytes) (t r : list bytes) (fn sn : N),
+  y < 2 ^ N.of_nat sf -> y' < 2 ^ N.of_nat f -> x <= y -> y < y' ->
+  strip_odd sf y y' = (fn, sn) ->
+  lenN t = ilenN x y -> lenN r = ilenN fn sn ->
+  len32 t -> len32 r -> length leaf = 32%nat -> length c0 = 32%nat ->
+  eval_inclusion H t x y leaf = old_eval r fn sn c0 ->
+  (exists t', len32 t' /\ lenN t' = ilenN x y' /\
+              eval_inclusion H t' x y' leaf = eval_inclusion H r fn sn c0) \/ Collision.
+Proof.
+  induction sf as [|sf IH]; intros f x y y' leaf c0 t r fn sn Hs Hf Hxy Hyy Es Lt Lr Ft Fr Ll Lc E.
+  - simpl in Hs. assert (y = 0) by lia. assert (x = 0) by lia. subst x y.
+    cbn [strip_odd] in Es. injection Es as <- <-.
+    rewrite eval_incl_same in E.
+    destruct (old_vs_last f 0 y' r t leaf c0 Hf ltac:(lia) Lr Lt Fr Ft ltac:(congruence) E) as [->|C]; auto.
+    left. exists r. auto.
+  - cbn [strip_odd] in Es. destruct (N.odd y) eqn:Oy.
+    + (* y odd: one more level below the first consistency term *)
+      assert (Lt' : lenN t = 1 + ilenN (N.div2 x) (N.div2 y)).
+      { destruct (N.eq_dec x y) as [->|]; [rewrite ilenN_eq, Oy in Lt; exact Lt | rewrite ilenN_lt in Lt by lia; exact Lt]. }
+      destruct t as [|hA tA]; [unfold lenN in Lt'; cbn [length] in Lt'; lia|].
+      rewrite lenN_cons1 in Lt'.
+      pose proof (Forall_inv Ft) as LhA. pose proof (Forall_inv_tail Ft) as FtA. cbn beta in LhA.
+      cbn [eval_inclusion] in E.
+      set (leafA := if N.even x && negb (x =? y) then nodeh leaf hA else nodeh hA leaf) in *.
+      assert (LlA : length leafA = 32%nat) by (unfold leafA; destruct (N.even x && negb (x =? y)); apply nodeh_len).
+      assert (Oy' : exists k, y = 2 * k + 1) by (apply N.odd_spec; exact Oy). destruct Oy' as [k Ek].
+      destruct (IH f (N.div2 x) (N.div2 y) (N.div2 y') leafA c0 tA r fn sn) as [(t2 & Ft2 & Lt2 & Et2)|C]; auto.
+      * apply div2_lt_pow; auto.
+      * rewrite N.div2_div. lia.
+      * rewrite !N.div2_div. lia.
+      * rewrite !N.div2_div. lia.
+      * lia.
+      * left. exists (hA :: t2). split; [constructor; auto|]. split.
+        -- rewrite lenN_cons1, ilenN_lt by lia. lia.
+        -- cbn [eval_inclusion]. rewrite <- Et2. f_equal. unfold leafA.
+           destruct (N.eqb_spec x y') as [|_]; [lia|]. cbn [negb]. rewrite andb_true_r.
+           destruct (N.eqb_spec x y) as [Exy|_]; cbn [negb]; rewrite ?andb_true_r, ?andb_false_r; [|reflexivity].
+           rewrite Exy, <- N.negb_odd, Oy. reflexivity.
+    + (* y even: the consistency fold starts here with ci = cj = c0 *)
+      injection Es as <- <-.
+      destruct (N.eq_dec x y) as [->|Ne].
+      * rewrite eval_incl_same in E.
+        destruct (old_vs_last f y y' r t leaf c0 Hf ltac:(lia) Lr Lt Fr Ft ltac:(congruence) E) as [->|C]; auto.
+        left. exists r. auto.
+      * apply (transport_inner f x y y' leaf c0 c0 t r); auto; lia.
+Qed.
+
+(* FACT (T). *)
+Theorem consistency_transport (cproof t : list bytes) (i m n : N) (leaf R R' : bytes) :
+  len32 cproof -> len32 t -> length leaf = 32%nat ->
+  verify_consistency_fixed H cproof m n R R' = Ok true ->
+  verify_inclusion H t i m leaf R = true ->
+  (exists t', len32 t' /\ verify_inclusion H t' i n leaf R' = true) \/ Collision.
+Proof.
+  intros Fc Ft Ll Vc Vi.
+  unfold verify_inclusion in Vi.
+  destruct ((m <? i) || (i =? 0) || (i <? m) && (lenN t =? 0)) eqn:G; [discriminate|].
+  apply orb_false_elim in G as [G _]. apply orb_false_elim in G as [G1 G2].
+  apply N.ltb_ge in G1. apply N.eqb_neq in G2.
+  destruct (N.eqb_spec (lenN t) (inclusion_proof_len i m)) as [Lt|]; [|discriminate].
+  cbn [negb] in Vi. apply list_eqb_eq in Vi.
+  rewrite inclusion_proof_len_ilenN in Lt by lia.
+  unfold verify_consistency_fixed in Vc.
+  destruct ((n <? m) || (m =? 0) || (m <? n) && (lenN cproof =? 0)) eqn:G'; [discriminate|].
+  apply orb_false_elim in G' as [G' G5]. apply orb_false_elim in G' as [G3 G4].
+  apply N.ltb_ge in G3. apply N.eqb_neq in G4.
+  assert (Same : R = R' -> (exists t', len32 t' /\ verify_inclusion H t' i n leaf R' = true) \/ Collision -> 
+                 (exists t', len32 t' /\ verify_inclusion H t' i n leaf R' = true) \/ Collision) by auto.
+  destruct ((m =? n) && (lenN cproof =? 0)) eqn:G6.
+  - (* same size, empty proof: the roots are equal *)
+    apply andb_prop in G6 as [G6 _]. apply N.eqb_eq in G6. subst n.
+    injection Vc as Vc. apply list_eqb_eq in Vc. subst R'.
+    left. exists t. split; auto. unfold verify_inclusion.
+    destruct (N.ltb_spec m i); [lia|]. destruct (N.eqb_spec i 0); [lia|]. cbn [orb].
+    destruct ((i <? m) && (lenN t =? 0)) eqn:G7.
+    { apply andb_prop in G7 as [G7 G8]. apply N.ltb_lt in G7. apply N.eqb_eq in G8.
+      rewrite ilenN_lt in Lt by lia. lia. }
+    rewrite inclusion_proof_len_ilenN by lia. rewrite Lt, N.eqb_refl. cbn [negb].
+    rewrite Vi. apply bytes_eqb_refl.
+  - destruct (N.eqb_spec (lenN cproof) (consistency_proof_len m n)) as [Lc|]; [|discriminate].
+    cbn [negb] in Vc.
+    destruct cproof as [|c0 r]; [discriminate|]. cbn [eval_consistency] in Vc.
+    destruct (strip_odd (S (N.size_nat (m - 1))) (m - 1) (n - 1)) as [fn sn] eqn:Es.
+    cbn [bind] in Vc. rewrite cons_loop_as_incl in Vc. cbn [fst snd] in Vc.
+    injection Vc as Vc. apply andb_prop in Vc as [V1 V2]. apply list_eqb_eq in V1. apply list_eqb_eq in V2.
+    pose proof (Forall_inv Fc) as Lc0. pose proof (Forall_inv_tail Fc) as Fr. cbn beta in Lc0.
+    rewrite lenN_cons1 in Lc.
+    destruct (N.eq_dec m n) as [<-|Nmn].
+    + (* same size, non-empty proof: both folds coincide *)
+      destruct (strip_odd_same (S (N.size_nat (m - 1))) (m - 1)) as [z Ez]. rewrite Ez in Es. injection Es as <- <-.
+      rewrite old_eval_same in V1. rewrite eval_incl_same in V2. assert (R = R') by congruence. subst R'.
+      left. exists t. split; auto. unfold verify_inclusion.
+      destruct (N.ltb_spec m i); [lia|]. destruct (N.eqb_spec i 0); [lia|]. cbn [orb].
+      destruct ((i <? m) && (lenN t =? 0)) eqn:G7.
+      { apply andb_prop in G7 as [G7 G8]. apply N.ltb_lt in G7. apply N.eqb_eq in G8.
+        rewrite ilenN_lt in Lt by lia. lia. }
+      rewrite inclusion_proof_len_ilenN by lia. rewrite Lt, N.eqb_refl. cbn [negb].
+      rewrite Vi. apply bytes_eqb_refl.
+    + destruct (cons_len_incl_len H m n ltac:(lia) ltac:(lia)) as (fn' & sn' & f2 & Es' & Le & Bd & Len).
+      rewrite Es in Es'. injection Es' as <- <-.
+      rewrite (ilenN_fuel f2 fn sn Le Bd) in Len.
+      destruct (transport_outer (S (N.size_nat (m - 1))) (N.size_nat (n - 1)) (i - 1) (m - 1) (n - 1)
+                  leaf c0 t r fn sn) as [(t' & Ft' & Lt' & Et')|C]; auto; try lia.
+      * pose proof (size_nat_gt (m - 1)) as Gm. rewrite Nnat.Nat2N.inj_succ, N.pow_succ_r'. lia.
+      * apply size_nat_gt.
+      * congruence.
+      * left. exists t'. split; auto. unfold verify_inclusion.
+        destruct (N.ltb_spec n i); [lia|]. destruct (N.eqb_spec i 0); [lia|]. cbn [orb].
+        destruct ((i <? n) && (lenN t' =? 0)) eqn:G7.
+        { apply andb_prop in G7 as [G7 G8]. apply N.ltb_lt in G7. apply N.eqb_eq in G8.
+          rewrite ilenN_lt in Lt' by lia. lia. }
+        rewrite inclusion_proof_len_ilenN by lia. rewrite Lt', N.eqb_refl. cbn [negb].
+        rewrite Et', <- V2. apply bytes_eqb_refl.
 Qed.
 
 End Transport.
